@@ -10,7 +10,7 @@ use std::panic::{catch_unwind, AssertUnwindSafe};
 pub const FLAGSETS: [&str; 12] = ["", "i", "m", "s", "ims", "u", "iu", "msu", "v", "iv", "msv", "imsv"];
 
 pub fn flags_of(s: &str) -> Fl {
-    Fl { i: s.contains('i'), m: s.contains('m'), s: s.contains('s'), u: s.contains('u'), v: s.contains('v') }
+    Fl { i: s.contains('i'), m: s.contains('m'), s: s.contains('s'), u: s.contains('u'), v: s.contains('v'), sp: 0 }
 }
 
 /// 'o' = Ok, 'e' = Err, 'p' = panic
